@@ -144,6 +144,9 @@ func (lineParser *LineParser) parseMarkup() (*ParseResult, error) {
 	for i := range attributes {
 		start := min(max(attributes[i].Position-leadingTrimmedLength, 0), textLength)
 		end := min(max(attributes[i].Position+attributes[i].Length-leadingTrimmedLength, 0), textLength)
+		// positions are counted in characters while the text is built: stray bytes written by nomarkup
+		// sections can later join into one character, which leaves a close position below its open position
+		end = max(end, start)
 		attributes[i].Position = start
 		attributes[i].Length = end - start
 	}
